@@ -34,7 +34,7 @@ def det_shard(case, r, sign=+1, wide=False):
 
 class C03(TracedProp):
     id = "C03"
-    profile = dict(mmc_values=(0, 0, 0, 0, 1e-6, 1e-2), extreme_scale_p=0.5, scale_exp_range=(-6, 6),
+    profile = dict(mmc_values=(0, 0, 0, 0, 1e-6, 1e-2), extreme_scale_p=0.5, scale_exp_range=(-6, 6), mixed_units_p=0.08,
                    knob_p=0.3, beta_forms=ANY_BETA, lambda_forms=ANY_LAMBDA, big_nw_p=0.1)
     oracle = staticmethod(oracles.c03)
     counts = dict(quick=640, thorough=40000)
@@ -68,7 +68,7 @@ class C04(TracedProp):
 
 class C05(TracedProp):
     id = "C05"
-    profile = dict(extreme_scale_p=0.3, scale_exp_range=(-3, 3), big_nw_p=0.12, N=(1, 4), W=(1, 6),
+    profile = dict(extreme_scale_p=0.4, scale_exp_range=(-3.2, 3.2), mixed_units_p=0.12, big_nw_p=0.12, N=(1, 4), W=(1, 6),
                    lambda_forms=ANY_LAMBDA, mmc_values=(0, 0, 0, 1e-3, 1e-2, 0.05, 0.12, 0.3))
     oracle = staticmethod(oracles.c05)
     counts = dict(quick=560, thorough=30000)
@@ -178,7 +178,7 @@ class C12(TracedProp):
 
 class C16(TracedProp):
     id = "C16"
-    profile = dict(extreme_scale_p=0.3, scale_exp_range=(-4, 4), beta_values=(0, 0, 0.5, 2, 5, 20, 200, 1e5),
+    profile = dict(extreme_scale_p=0.3, scale_exp_range=(-4, 4), mixed_units_p=0.08, beta_values=(0, 0, 0.5, 2, 5, 20, 200, 1e5),
                    limits=(1, 2, 3, 5, 50), mmc_values=(0, 0, 0, 1e-3, 1e-2, 0.05, 0.15))
     oracle = staticmethod(oracles.c16)
     counts = dict(quick=720, thorough=40000)
